@@ -29,6 +29,11 @@ def run(rep, work, rng, tier):
             name = 'f%d.c3d' % i; open(os.path.join(shared, name), 'wb').write(c3dspec.encode(L, c))
             lines = ['loadx 0 ' + name, 'snap 0', 'print 0', 'save 0 g%d.c3d' % i, 'load 1 g%d.c3d' % i, 'snap 1', 'point 1 x6e6577', 'snap 1', 'drop 1']
             add('well-formed-file+edit', 'f%d' % i, lines)
+    # an element handed back to its own container (points, channels, sub-frames), at every size around the growth steps of the
+    # vectors (1, 2, 4, 8, 16: full capacity when appended one by one; any size when sized or copied)
+    for k in ([1, 2, 3, 4, 5, 8, 16, 17] if tier == 'quick' else list(range(1, 70))):
+        for how in ('plain', 'sized', 'copied'):
+            add('element-appended-to-its-own-container', 'self%d%s' % (k, how), ['mk.self %d %d %s' % (k, j, how) for j in sorted(set([0, k // 2, k - 1]))])
     (cres, cown, cerr), (mres, mown, merr) = harness.run_both(cases, work, shared=shared, flavor='asan',
         cxx_env={'ASAN_OPTIONS': 'detect_leaks=1:abort_on_error=1:new_delete_type_mismatch=1:alloc_dealloc_mismatch=1'})
     bad = 0; nd = 0; skipped_ub = 0; clean = 0
